@@ -230,6 +230,8 @@ class FitYamlReader(YamlReaderMixin, FitDReprBase):
 
         if _read_parametric_model is not None:
             _fit_object._param_model = _read_parametric_model
+            _fit_object._param_model._on_error_change_callback = _fit_object._on_error_change
+            _fit_object._on_error_change()
 
         _constraint_yaml_list = yaml_doc.pop("parameter_constraints", None)
         if isinstance(_constraint_yaml_list, dict):
@@ -243,6 +245,7 @@ class FitYamlReader(YamlReaderMixin, FitDReprBase):
                 )
                 for _constraint_yaml in _constraint_yaml_list
             ]
+            _fit_object._on_constraint_change()
 
         _fixed_par_list = yaml_doc.pop("fixed_parameters", None)
         if _fixed_par_list is not None:
@@ -255,8 +258,13 @@ class FitYamlReader(YamlReaderMixin, FitDReprBase):
                 _low, _high = _limits
                 _fit_object.limit_parameter(_par, _low, _high)
 
-        _fit_results = yaml_doc.pop("fit_results", None)
-        _fit_object._loaded_result_dict = to_numpy_arrays(_fit_results)
+        _fit_results = to_numpy_arrays(yaml_doc.pop("fit_results", None))
+        if _fit_results is not None:
+            # the parameter values are part of the stored state (the only place they are stored for a custom fit)
+            _par_values = _fit_results.get("parameter_values", None)
+            if _par_values is not None:
+                _fit_object._fitter.set_all_fit_parameter_values(_par_values)
+        _fit_object._loaded_result_dict = _fit_results
         return _fit_object, yaml_doc
 
 
